@@ -93,6 +93,14 @@ theorem exec_base (prog : Bytes) (e : Exec) (pc : Nat) (loops : List LoopItem) (
     · simp only; rw [f9]; rfl
     · simp only; rw [f10]; rfl
     · exact ⟨p1, p2, p3⟩
+  | trigger p a =>
+    rw [exec_trigger e _ _ p a _ hr hok hdrop hsize]
+    refine ⟨⟨f1, f2, ?_, f4, f5, f6, f7, ?_, ?_, ?_⟩, ?_⟩
+    · simp only; rw [f3]
+    · simp only [Cmd.nextR, Cmd.next]; exact f8
+    · simp only; rw [f9]; rfl
+    · simp only; rw [f10]; rfl
+    · exact ⟨p1, p2, p3⟩
   | waitUntil v =>
     rw [exec_wait e _ _ v _ hr hok hdrop hsize (by simpa [Cmd.nextR] using hT)]
     refine ⟨⟨f1, f2, ?_, f4, f5, f6, f7, ?_, rfl, ?_⟩, ?_⟩
@@ -164,6 +172,7 @@ theorem finish_base (prog : Bytes) (e : Exec) (pc : Nat) (loops : List LoopItem)
   | pyro mm => exact idle ha.1 ha.2.1 ha.2.2
   | pyroSet mm => exact idle ha.1 ha.2.1 ha.2.2
   | nop => exact idle ha.1 ha.2.1 ha.2.2
+  | trigger p a => exact idle ha.1 ha.2.1 ha.2.2
   | waitUntil v => exact idle ha.1 ha.2.1 ha.2.2
   | fade en r g b d =>
     by_cases hd0 : d = 0
